@@ -338,7 +338,7 @@ def run(model, col, tier):
     good = False
     if loops:
         lp = loops[0]
-        it_ok = unparse(lp.iter) in ("source.split('\\n')",)
+        it_ok = unparse(lp.iter) in (f"{init.args.args[1].arg}.split('\\n')",)
         lv_ = lp.target.id if isinstance(lp.target, ast.Name) else None
         body = lp.body
         app = [i for i, s in enumerate(body) if isinstance(s, ast.Expr) and isinstance(s.value, ast.Call) and last_attr(s.value) == "append"]
